@@ -7,7 +7,7 @@ from .abstract import AbstractPaths
 import numpy as np
 
 from autofit.database.model import Fit
-from autoconf.dictable import to_dict
+from autoconf.dictable import to_dict, from_dict
 from autofit.database.aggregator.info import Info
 
 
@@ -276,6 +276,20 @@ class DatabasePaths(AbstractPaths):
 
         self.fit.samples = samples
         self.fit.set_json("samples_info", samples.samples_info)
+
+    def save_samples_summary(self, samples_summary):
+        model = samples_summary.model
+        samples_summary.model = None
+        self.fit.set_json("samples_summary", to_dict(samples_summary))
+        samples_summary.model = model
+
+    def load_samples_summary(self):
+        try:
+            samples_summary = from_dict(self.fit.get_json("samples_summary"))
+        except KeyError:
+            return None
+        samples_summary.model = self.model
+        return samples_summary
 
     def save_latent_samples(self, latent_samples):
         if not self.save_all_samples:
